@@ -236,7 +236,10 @@ def gen_scenario(r, idx, analysis=None, force=None):
         ch = r.choice([{'type': 'thickness', 'kw': {'surface_number': ns}},
                        {'type': 'radius', 'kw': {'surface_number': ns}},
                        {'type': 'conic', 'kw': {'surface_number': 1}}])
-        if hkey(ch) not in used and not (ch['type'] == 'conic' and spec['surfaces'][0]['radius'] == INF):
+        # a scaled radius/conic compensator on a flat surface starts the optimiser at x0 = scale(inf) = inf
+        # (scipy raises "array must not contain infs or NaNs"): not a valid tolerancing set-up, never generated
+        flat = spec['surfaces'][ch['kw']['surface_number'] - 1]['radius'] == INF
+        if hkey(ch) not in used and not (ch['type'] in ('conic', 'radius') and flat):
             comps.append(ch)
             used.add(hkey(ch))
     pickups = []
